@@ -10,8 +10,10 @@ import (
 	"time"
 
 	"github.com/Comcast/rulio/core"
+	"github.com/Comcast/rulio/cron"
 
 	"verif/sim/h"
+	"verif/sim/hs"
 )
 
 // locworld is the general history executor over core.Location objects: it
@@ -186,10 +188,20 @@ func execLocWorld(t *testing.T, plan *h.Plan, trace bool, prof lwProfile) *h.Res
 		w.state = plan.CfgS("state", "indexed")
 		back = h.NewBackend(plan.CfgS("storage", "mem"))
 		w.eng = h.NewCoreEngine(w.state, back, ctl)
+		// the state hooks a System installs on every location (cron registration
+		// of scheduled rules): requests reach the states through them in service
+		lwCron := hs.NewSimCron(true)
+		w.eng.OnNewState = func(ctx *core.Context, name string, st core.State) { cron.AddHooks(ctx, lwCron, st) }
 		w.eng.Store.SetFaults(plan.Faults)
 		w.model = h.NewModel(time.Now)
 		w.model.IdInject = plan.CfgB("id_inject")
 		w.model.MaxFacts = ctl.MaxFacts
+		h.SharedCtx = nil
+		if plan.CfgB("shared_ctx") {
+			// one caller context for the whole history, its keys set per request
+			h.SharedCtx = core.BenchContext("sim")
+			defer func() { h.SharedCtx = nil }()
+		}
 		start := time.Now()
 		func() {
 			defer func() {
@@ -379,6 +391,7 @@ func (w *lw) afterCrash(op h.Op) {
 		}
 	}
 	m := w.model
+	m.FaultPendingPurges()
 	gone := map[string]bool{}   // ids (of op.Loc) found in their new, absent state
 	stayed := map[string]bool{} // ids (of op.Loc) found in their old, present state
 	for ln, ids := range named {
@@ -669,6 +682,13 @@ func (w *lw) step(op h.Op) {
 				return
 			}
 		}
+		if err != nil && illFormedRuleFact(body) && m.CanWrite(l, prot(op)) && m.Enabled(l) {
+			// a rule-shaped fact that is no rule: a state may refuse it (the indexed
+			// state cannot index it) or keep it as data - C13 asks for a result or an
+			// error, nothing more.  Refused means that nothing has changed.
+			w.after(op)
+			return
+		}
 		mid, it, gen, merr := m.AddFact(op.Loc, op.Id, body, prot(op))
 		w.agree(op, err, merr, shapeOfFact(body))
 		if err == nil {
@@ -883,7 +903,13 @@ func (w *lw) step(op h.Op) {
 		loc := w.eng.Loc(op.Loc)
 		var err error
 		val := op.J
-		w.call("SetProp", func() { err = loc.SetProp(h.NewCtx(prot(op)), op.Id, op.S, val) })
+		w.call("SetProp", func() {
+			// (Location.SetProp is the one entry point that does not note the
+			// location in the caller's context; the add hook looks there)
+			ctx := h.NewCtx(prot(op))
+			ctx.SetLoc(loc)
+			err = loc.SetProp(ctx, op.Id, op.S, val)
+		})
 		w.tr("setprop %s.%s=%v -> %s", op.Id, op.S, val, isErr(err))
 		if w.faulted(op, err) {
 			w.after(op)
@@ -1169,6 +1195,7 @@ func (w *lw) checkGet(locName, id string, p h.Prot, op h.Op) {
 		return
 	}
 	unc := w.model.IsUncertain(locName, id)
+	w.tr("  battery get %s/%s -> %s (uncertain=%v)", locName, id, isErr(err), unc)
 	it, merr := w.model.Get(locName, id, p)
 	if ml := w.model.Loc(locName); w.model.Enabled(ml) && w.model.CanRead(ml, p) {
 		// the engine looked the id up (and purged it if it had expired)
@@ -1197,6 +1224,31 @@ func (w *lw) checkGet(locName, id string, p h.Prot, op h.Op) {
 			}
 		}
 	}
+}
+
+// illFormedRuleFact: the body has a "rule" that is not a map, or whose `when`
+// (or the pattern in it) is not a map.
+func illFormedRuleFact(body map[string]interface{}) bool {
+	r, has := body["rule"]
+	if !has {
+		return false
+	}
+	rm, ok := r.(map[string]interface{})
+	if !ok {
+		return true
+	}
+	if w, has := rm["when"]; has {
+		wm, ok := w.(map[string]interface{})
+		if !ok {
+			return true
+		}
+		if p, has := wm["pattern"]; has {
+			if _, ok := p.(map[string]interface{}); !ok {
+				return true
+			}
+		}
+	}
+	return false
 }
 
 func sortSets(v interface{}) interface{} { return h.SortSets(h.Parse(h.Canon(v))) }
